@@ -11,8 +11,8 @@ Theorem C16_wf_b_is_wf : forall c, wf_b c = true <-> wf c.
 Proof. exact wf_b_iff. Qed.
 Print Assumptions C16_wf_b_is_wf.
 
-Theorem C16_wf_init : forall per sc, wf (init_cat per sc).
-Proof. exact wf_init. Qed.
+Theorem C16_wf_init : forall per sc cl, wf (init_cat_v per sc cl).
+Proof. exact wf_init_v. Qed.
 Print Assumptions C16_wf_init.
 
 (* every one of the 19 modelled commands, with any arguments (valid or not), preserves well-formedness:
@@ -23,8 +23,8 @@ Proof. exact wf_step. Qed.
 Print Assumptions C16_wf_preserved.
 
 (* after every single step of every command sequence *)
-Theorem C16_wf_every_prefix : forall xs k per sc, env_run (init_cat per sc) xs -> wf (run true true (init_cat per sc) (firstn k xs)).
-Proof. intros xs k per sc. apply wf_run_prefix. apply wf_init. Qed.
+Theorem C16_wf_every_prefix : forall xs k per sc cl, env_run (init_cat_v per sc cl) xs -> wf (run true true (init_cat_v per sc cl) (firstn k xs)).
+Proof. intros xs k per sc cl. apply wf_run_prefix. apply wf_init_v. Qed.
 Print Assumptions C16_wf_every_prefix.
 
 (* a command that fails leaves the catalogue unchanged (both variants) *)
@@ -54,7 +54,7 @@ Print Assumptions C16_ids_never_reused.
 
 (* the repaired creation: the new group contains the instant, is inside one cell, and is disjoint from every live group *)
 Theorem C16_new_group_disjoint : forall c p ig t eng,
-  existsb (fun g => covers g t eng) (rp_sgs p) = false -> 0 < rp_sgdur p -> t < MAXNANO1 ->
+  existsb (fun g => covers g t eng) (rp_sgs p) = false -> 0 < rp_sgdur p -> MINNANO <= t < MAXNANO1 ->
   aligned (new_sgroup true c p ig t eng) /\ Forall (disjoint2 (new_sgroup true c p ig t eng)) (rp_sgs p).
 Proof. exact new_sgroup_ok. Qed.
 Print Assumptions C16_new_group_disjoint.
@@ -62,7 +62,7 @@ Print Assumptions C16_new_group_disjoint.
 (* TODAY's creation (no clipping) also preserves well-formedness as long as the live groups of that engine type are whole cells
    of the policy's current shard-group duration, i.e. the duration was not changed since they were created. PARTIAL with
    respect to the statement: without that hypothesis today's code is refuted (Refuted.v, C16_overlap_refuted). *)
-Theorem C16_disjoint_partial : forall c db rp t eng, wf c -> t < MAXNANO1 ->
+Theorem C16_disjoint_partial : forall c db rp t eng, wf c -> MINNANO <= t < MAXNANO1 ->
   (forall p, get_pol c db rp = Some p -> full_cells p eng) ->
   wf (fst (create_sg false c db rp t eng)).
 Proof. exact wf_create_sg_current. Qed.
